@@ -473,15 +473,18 @@ Proof.
 Qed.
 
 Lemma frag_invalidate c p k :
+  let l := ln k (her_inval_reads_length p) in
+  let e := her_inval_end (st k (her_inval_reads_start p)) l in
   invalidate c p k =
-  if her_inval_guard (ln k p) then set_range (ln k) p (her_inval_end (st k p) (ln k p)) c her_inval_value else ln k.
-Proof. reflexivity. Qed.
+  (if her_inval_guard l then set_range (ln k) (her_inval_from p e) (her_inval_to p e) c her_inval_value else ln k) /\
+  her_inval_which = 1.
+Proof. split; reflexivity. Qed.
 
 Lemma frag_close c p k :
   close_episode c p k =
   let '(s, e) := her_close_bounds (cur k) p c in
-  mkC (st k) (set_range (ln k) s e c (her_close_length s e)) (her_close_new_start p) (eid k + 1) 0 (sl k).
-Proof. unfold close_episode, her_close_bounds, ep_end, her_close_length, her_close_new_start. destruct (p <? cur k); reflexivity. Qed.
+  mkC (st k) (set_range (ln k) (her_close_from s e) (her_close_to s e) c (her_close_length s e)) (her_close_new_start p) (eid k + 1) 0 (sl k).
+Proof. unfold close_episode, her_close_bounds, ep_end, her_close_length, her_close_new_start, her_close_from, her_close_to. destruct (p <? cur k); reflexivity. Qed.
 
 Lemma frag_valid k i : valid k i = her_is_valid (ln k i).
 Proof. reflexivity. Qed.
@@ -490,16 +493,31 @@ Lemma frag_goal g c k i kk :
   cur_ix c k i = her_goal_current i (st k i) c /\
   goal_slot c k i kk = her_goal_slot kk (st k i) c /\
   goal_range g c k i =
-    match g with
-    | Final => (her_goal_final (ln k i), her_goal_final (ln k i) + 1)
-    | Future => (her_goal_current i (st k i) c, ln k i)
-    | Episode => (0, ln k i)
-    end /\
-  her_goal_future_draw kk = kk /\ her_goal_episode_draw kk = kk.
+    (let cur := her_goal_current i (st k i) c in
+     match g with
+     | Final => (her_goal_final (ln k i), her_goal_final (ln k i) + 1)
+     | Future => (her_goal_future_lo cur (ln k i), her_goal_future_hi cur (ln k i))
+     | Episode => (her_goal_episode_lo cur (ln k i), her_goal_episode_hi cur (ln k i))
+     end) /\
+  her_goal_future_draw kk = kk /\ her_goal_episode_draw kk = kk /\
+  (her_goal_branch0, her_goal_branch1, her_goal_branch2) = (1, 2, 3).
 Proof.
-  unfold cur_ix, goal_slot, her_goal_current, her_goal_slot, her_goal_final, her_goal_future_draw, her_goal_episode_draw.
+  unfold cur_ix, goal_slot, her_goal_current, her_goal_slot, her_goal_final, her_goal_future_draw, her_goal_episode_draw,
+    her_goal_future_lo, her_goal_future_hi, her_goal_episode_lo, her_goal_episode_hi.
   repeat split; try reflexivity. destruct g; cbn [goal_range]; try reflexivity. f_equal. ring.
 Qed.
+
+(* the remaining pieces of add / truncate_last_trajectory / _sample_goals / _get_virtual_samples, picked from the source:
+   ep_start[pos] = _current_ep_start; the episode of column e is closed iff done[e], for that column; the timeout mark goes to slot pos - 1
+   under handle_timeout_termination; the goal is next_observations["achieved_goal"][goal slot, env]; it is written to obs["desired_goal"]
+   and next_obs["desired_goal"]; compute_reward(next_obs["achieved_goal"], obs["desired_goal"], infos) *)
+Lemma frag_her_picks p ti ev (d hto : bool) :
+  her_ep_start_slot p = p /\ her_ep_start_value = 1 /\ her_close_guard d = d /\ her_close_guard_arg = 1 /\
+  her_trunc_to_slot p = p - 1 /\ her_trunc_slot p = p - 1 /\ her_trunc_to_guard hto = hto /\
+  (her_goal_source, her_goal_source_slot ti ev, her_goal_source_env ti ev) = (1, ti, ev) /\
+  (her_relabel_obs_key, her_relabel_next_key, her_relabel_next_value) = (1, 1, 1) /\
+  (her_reward_arg0, her_reward_arg1, her_reward_arg2, her_reward_arg3) = (1, 2, 3, 4).
+Proof. repeat split; reflexivity. Qed.
 
 Lemma frag_truncate c hto p k :
   col_truncate c hto p k =
